@@ -22,7 +22,7 @@ RULES = {
     'R6': 'peek/read: timedwait_fn (when installed) before the marker load; token reposted on the marker-not-published edge',
     'R7': 'qb_atomic_int_set_ex/get_ex are __atomic_store_n/__atomic_load_n with qb_model_map(model); qb_model_map maps every member to the same-named __ATOMIC_*',
 }
-FLOORS = {'R1': 5, 'R2': 9, 'R3': 4, 'R4': 5, 'R5': 5, 'R6': 4, 'R7': 8}
+FLOORS = {'R1': 5, 'R2': 9, 'R3': 4, 'R4': 5, 'R5': 5, 'R6': 5, 'R7': 8}
 
 MAGIC = 0xA1A1A1A1
 
@@ -365,6 +365,30 @@ def r6(ctx, magic):
                               'the wait token is given back (post_fn) on the marker-not-published edge',
                               'marker-not-published edge can return without reposting the token',
                               {'path': f.path_lines(exits[0]) if exits else None})
+
+
+    # read: a token taken by a successful wait is either used up by consuming a chunk
+    # (reclaim) or given back (post_fn) on every path to a return
+    f = prog.fn('qb_rb_chunk_read')
+    w = list(f.calls('qb_rb_notifier::timedwait_fn'))[0]
+
+    def keep_edge(fb, t, lab):
+        if fb.cond is None or lab not in (True, False):
+            return True
+        for a in atoms_of(fb.cond, lab):
+            if a.op == '==' and a.rc == 0 and (field_is(a.l, 'post_fn') or field_is(a.l, 'timedwait_fn')):
+                return False        # no notifier installed
+            if a.op == '<' and a.rc == 0 and unwrap(a.l).get('k') == 'var':
+                defs, _en = f.reaching_defs(unwrap(a.l)['n'], f.end_of(fb.id))
+                if any(d.kind == 'STORE' and callee_of(unwrap(d.rhs)) == 'qb_rb_notifier::timedwait_fn' for d in defs):
+                    return False    # the wait failed: no token was taken
+        return True
+    _h, exits, _n = f.search(('after', w), stop=lambda ev: ev.kind == 'CALL' and ev.callee in ('qb_rb_notifier::post_fn', '_rb_chunk_reclaim'),
+                             edge_filter=keep_edge)
+    ctx.check('R6', 'qb_rb_chunk_read:token-used-or-returned', not exits, w,
+              'after a successful wait every return has either consumed a chunk or reposted the token',
+              'a path returns after a successful wait without consuming a chunk or reposting: the count falls behind the chunks and the last chunk is never delivered',
+              {'path': f.path_lines(exits[0]) if exits else None})
 
 
 # -- R7 ---------------------------------------------------------------------
